@@ -1,5 +1,5 @@
 /-
-  F17 — the life cycle of a Session (session.go): model `Model/SessionLife.lean`, its theorems, and the ties of
+  F19 — the life cycle of a Session (session.go): model `Model/SessionLife.lean`, its theorems, and the ties of
   the regenerated code (Gen/SessLifeGen.lean, tools/goextract/sesslife.go) to it.  Obligation of C04, C05, C09.
 
   Model theorems (all histories, any interleaving of any number of `Close` calls with ticks, purges, table
